@@ -1,5 +1,5 @@
 import Driver.Util
-import Driver.C17
+import Driver.C17Parse
 import Manticore.Model.C18
 /-!
   Driver ops of C18.
